@@ -260,7 +260,7 @@ package model
 //@   property C19 C18
 //@   ensures [ratio] result == ((currentRange.Max - currentRange.Min) != 0.0 ? 1.0 / (currentRange.Max - currentRange.Min) : 0.0)
 //@ func ValuesRangeWithGroundZero
-//@   property C18
+//@   property C18 C09
 //@   ensures [ground_zero] fresh(result) && result.Min == 0.0
 //@   ensures [declared] criterion.ValuesRange != nil ==> result.Max == max(max(abs(criterion.ValuesRange.Min), abs(criterion.ValuesRange.Max)), criterion.ValuesRange.Max - criterion.ValuesRange.Min)
 //@   ensures [nonneg] result.Max >= 0.0
@@ -375,7 +375,7 @@ package model
 //@      (*biases)[i].Props.ApplyProbability > draw(appfn(gen, dm.BiasApplyRandomSeed), i)
 
 //@ func (*DecisionMaker).processBiases
-//@   property C07 C08 C09 C20
+//@   property C07 C08 C09 C20 C01
 //@   fnparam biasApplyProbGenerator pure
 //@   fnparam generator ensures 0.0 <= result && result < 1.0
 //@   requires forall i int :: 0 <= i && i < len(*biases) ==> (*biases)[i].Bias != nil && (*biases)[i].Props != nil
